@@ -138,6 +138,26 @@ func registerIntrinsics(e *Exec) {
 		return ret(st, StructV{[]Value{BV{nsec}, BV{ext}, nilPtr}})
 	}
 
+	in["strings.ReplaceAll"] = func(e *Exec, st *State, fn *ssa.Function, args []Value) []Outcome {
+		str, old, nw := args[0].(StringV), args[1].(StringV), args[2].(StringV)
+		so, ok1 := e.concreteString(old)
+		sn, ok2 := e.concreteString(nw)
+		if !ok1 || !ok2 {
+			panic(unsupported("strings.ReplaceAll with symbolic pattern"))
+		}
+		if ss, ok := e.concreteString(str); ok {
+			return ret(st, e.constString(strings.ReplaceAll(ss, so, sn)))
+		}
+		if len(so) == 1 && len(sn) == 1 {
+			return ret(st, StringV{C: &CMapByte{Src: str.C, Old: e.tc.BVConst(uint64(so[0]), 8), New: e.tc.BVConst(uint64(sn[0]), 8)}, Off: str.Off, Len: str.Len})
+		}
+		panic(unsupported("strings.ReplaceAll of a symbolic string with multi-byte patterns"))
+	}
+	in["(time.Time).Format"] = func(e *Exec, st *State, fn *ssa.Function, args []Value) []Outcome {
+		return ret(st, e.opaqueString(st, "time.Format"))
+	}
+	in["(time.Time).String"] = in["(time.Time).Format"]
+
 	// --- bytealg ---------------------------------------------------------------
 	in["internal/bytealg.IndexByteString"] = func(e *Exec, st *State, fn *ssa.Function, args []Value) []Outcome {
 		s := args[0].(StringV)
